@@ -1,10 +1,11 @@
 import Model.History
 import Model.Feed
-import Generated.GoCode
+import Generated.GoHistory
+import Generated.GoFeed
 import Proofs.Gen18
 
 /-
-  The tie by translation for C18: `Generated/GoCode.lean` is produced from history/history.go and
+  The tie by translation for C18: `Generated/GoHistory.lean` and `Generated/GoFeed.lean` are produced from history/history.go and
   feed/feed.go by `extract/go2lean.go` on every run; the theorems below say that every method of
   the generated code computes exactly what the hand-written model (`Model/History.lean`,
   `Model/Feed.lean`) computes.  The C18 theorems (`Props/C18.lean`) are stated over the hand-written
